@@ -81,7 +81,8 @@ Definition okSrc (i : id) (s : option src) : Prop :=
   match s with
   | Some SCmdLine => selId i
   | Some SEnv => selId i \/ envId i
-  | _ => True
+  | Some SDefault => True
+  | None => False
   end.
 (** when a reaction with source [s] may create / touch the entry [i] *)
 Definition introOK (i : id) (s : src) : Prop :=
@@ -100,14 +101,13 @@ Definition K (st : ps) : Prop := KM (mt st).
     validator ([explicit_entries]: source command line or environment) *)
 Definition faithful (m : matcher) : Prop :=
   forall i ma, In (i, ma) (explicit_entries m) ->
-    (m_source ma = Some SCmdLine /\ selId i) \/ (m_source ma = Some SEnv /\ (selId i \/ envId i))
-    \/ m_source ma = None.
+    (m_source ma = Some SCmdLine /\ selId i) \/ (m_source ma = Some SEnv /\ (selId i \/ envId i)).
 
 Lemma K_faithful st : K st -> faithful (mt st).
 Proof.
   intros [_ He] i ma Hin. unfold explicit_entries in Hin. apply filter_In in Hin. destruct Hin as [Hin Hex].
   specialize (He i ma Hin). cbn [snd] in Hex. unfold check_explicit_m in Hex.
-  destruct (m_source ma) as [[| |]|]; cbn in *; try discriminate; auto.
+  destruct (m_source ma) as [[| |]|]; cbn in *; try discriminate; try contradiction; auto.
 Qed.
 
 (** ** provenance facts *)
@@ -117,14 +117,8 @@ Lemma Vt_tok tok n : In tok T -> Vt (skipn n tok).
 Proof. intros Hin. destruct Vt_ok as [_ H]. rewrite Forall_forall in H. apply H. exact Hin. Qed.
 
 (** ** entries: closure under the primitive matcher operations *)
-Lemma okSrc_sel i s : selId i -> okSrc i s.
-Proof. destruct s as [[| |]|]; cbn; auto. Qed.
-
-Lemma okSrc_set i s0 s : okSrc i s0 -> introOK i s ->
-  okSrc i (Some (match s0 with Some e => src_max e s | None => s end)).
-Proof.
-  destruct s0 as [[| |]|]; destruct s; cbn; auto; try tauto.
-Qed.
+Lemma okSrc_set i s0 s : okSrc i (Some s0) -> introOK i s -> okSrc i (Some (src_max s0 s)).
+Proof. destruct s0; destruct s; cbn; auto; try tauto. Qed.
 
 Lemma entK_remove l i : entK l -> entK (fst (fm_remove i l)).
 Proof. intros H j m Hin. apply (H j m). apply (fm_remove_incl _ _ _ Hin). Qed.
@@ -153,8 +147,9 @@ Proof.
   intros H Hi j m Hin.
   destruct (fm_entry_or_insert_in _ _ _ _ _ _ Hin) as [H1|[[v [H1 [-> Hb]]]|[-> ->]]].
   - apply (H j m H1).
-  - apply beq_eq in Hb. subst j. cbn. apply okSrc_set; [apply (H i v H1)|exact Hi].
-  - cbn. apply (okSrc_set i None s I Hi).
+  - apply beq_eq in Hb. subst j. cbn. pose proof (H i v H1) as Hv.
+    destruct (m_source v) as [s0|]; [apply okSrc_set; assumption|contradiction].
+  - cbn. destruct s; exact Hi.
 Qed.
 
 Lemma append_val_source v m m' : append_val v m = Some m' -> m_source m' = m_source m.
@@ -889,7 +884,7 @@ Inductive level_breaks (c : cmd) (T : list bytes) (e : error) : Prop :=
 | LBHelpSub names : suffix_of names T -> e = help_walk c names -> level_breaks c T e
 | LBExtValue v : In v T -> is_set s_allow_external c = true ->
     vp_parse (opt_default VPOsString (c_ext_vp c)) v = Some (e_kind e) -> e_arg e = [] -> level_breaks c T e
-| LBValidate m k x : faithful c T m -> validate c m = VErr k x -> e = mkerr c k x -> level_breaks c T e.
+| LBValidate m k x : assert_app c = true -> faithful c T m -> validate c m = VErr k x -> e = mkerr c k x -> level_breaks c T e.
 
 (** the error belongs to this level or to a level further down the chain of subcommands, each parsing a tail of the line *)
 Inductive breaks : cmd -> list bytes -> error -> Prop :=
@@ -962,8 +957,209 @@ Proof.
     { intros e He. apply BHere, LBLoop, LCReact. exact He. }
     intros st3 HK3. unfold vres_to_res.
     destruct (validate c (mt st3)) as [|k a|s] eqn:Ev; cbn; [exact I| |exact I].
-    apply BHere. eapply LBValidate; [apply K_faithful; exact HK3|exact Ev|reflexivity].
+    apply BHere. eapply LBValidate; [exact Happ|apply K_faithful; exact HK3|exact Ev|reflexivity].
   - destruct (is_set s_ignore_errors c); [|exact Hparsed].
     destruct (add_env c st) as [s1|e1 s1|x1]; try exact I;
       match goal with |- context [add_defaults c ?x] => destruct (add_defaults c x) end; try exact I; exact Hparsed.
+Qed.
+
+(** * the whole parse *)
+Theorem do_parse_breaks c0 toks e : plain c0 = true -> valid c0 = true ->
+  do_parse c0 toks = OErr e -> breaks (build_self c0) toks e.
+Proof.
+  intros Hp Hv. unfold do_parse. rewrite Hv. cbn [negb].
+  unfold valid in Hv. cbn zeta in Hv.
+  pose proof (tree_ok_of_valid _ _ Hp Hv) as Hok.
+  pose proof (gmw_breaks _ (build_self c0) toks ps_new Hok (K_fresh (build_self c0) toks ps_new eq_refl)) as Hs.
+  destruct (get_matches_with _ (build_self c0) toks ps_new) as [st|e1 st|s]; cbn [okE] in Hs.
+  - discriminate.
+  - destruct (is_set s_ignore_errors (build_self c0) && use_stderr (e_kind e1)); [discriminate|].
+    intros H; injection H as <-. exact Hs.
+  - destruct s; discriminate.
+Qed.
+
+Lemma bin_name_eta c0 : c0 <| c_bin_name := c_bin_name c0 |> = c0.
+Proof. destruct c0; reflexivity. Qed.
+
+(** the chain of levels: the root command, or a built subcommand of a reached level with a tail of its line *)
+Inductive reach : cmd -> list bytes -> cmd -> list bytes -> Prop :=
+| RHere c T : reach c T c T
+| RSub c T n sc T' c2 T2 : build_subcommand c n = Some sc -> suffix_of T' T -> reach sc T' c2 T2 -> reach c T c2 T2.
+
+Lemma breaks_reach c T e : breaks c T e -> exists c' T', reach c T c' T' /\ level_breaks c' T' e.
+Proof.
+  induction 1 as [c T e H|c T n sc T' e Hb Hs _ [c' [T2 [Hr Hl]]]].
+  - exists c, T. split; [constructor|exact H].
+  - exists c', T2. split; [econstructor; eassumption|exact Hl].
+Qed.
+
+Theorem parse_top_breaks c0 argv e : plain c0 = true ->
+  (forall b, valid (c0 <| c_bin_name := b |>) = true) -> valid c0 = true ->
+  parse_top c0 argv = OErr e ->
+  exists b T, suffix_of T argv /\ breaks (build_self (c0 <| c_bin_name := b |>)) T e.
+Proof.
+  intros Hp Hvb Hv. unfold parse_top.
+  assert (Same : forall T, suffix_of T argv -> do_parse c0 T = OErr e ->
+            exists b T, suffix_of T argv /\ breaks (build_self (c0 <| c_bin_name := b |>)) T e).
+  { intros T HT H. exists (c_bin_name c0), T. split; [exact HT|]. rewrite bin_name_eta.
+    apply do_parse_breaks; assumption. }
+  destruct (is_set s_no_binary_name c0); [apply Same; apply suffix_refl|].
+  destruct argv as [|bin rest]; [apply Same; apply suffix_refl|].
+  assert (Hrest : suffix_of rest (bin :: rest)) by (exists [bin]; reflexivity).
+  destruct (c_bin_name c0); [apply Same; exact Hrest|].
+  destruct (utf8_valid bin && negb (is_nil bin)); [|apply Same; exact Hrest].
+  intros H. exists (Some bin), rest. split; [exact Hrest|].
+  apply do_parse_breaks; [rewrite plain_bin; exact Hp|apply Hvb|exact H].
+Qed.
+
+(** * the kind names the cause: per kind, what [level_breaks] amounts to *)
+Section Justified.
+Variable c : cmd.
+Variable T : list bytes.
+
+(** the line or the environment accounts for the id (of an argument or of one of its groups) *)
+Definition accounted (i : id) : Prop := selId c T i \/ envId c i.
+
+Lemma faithful_accounted m i : faithful c T m -> explicit_id m i -> accounted i.
+Proof.
+  intros Hf Hi. unfold explicit_id in Hi. apply in_map_iff in Hi. destruct Hi as [[j ma] [<- Hin]]. cbn [fst].
+  destruct (Hf j ma Hin) as [[_ H]|[_ H]]; [left; exact H|exact H].
+Qed.
+
+(** an occurrence of [a] whose number of values breaks the declared range *)
+Definition J_count_occ (e : error) : Prop :=
+  exists a raw r, In a (c_args c) /\ occurs c T a /\ Forall (origin c T) raw /\ a_num a = Some r /\
+                  e_arg e = a_id a /\ count_breaks (e_kind e) r (N.of_nat (length raw)).
+(** a value of known origin outside the language of the parser of the argument it was given to *)
+Definition J_value_occ (e : error) : Prop :=
+  exists a s vp v, In a (c_args c) /\ srcOKarg c T a s /\ a_vp a = Some vp /\ origin c T v /\
+                   vp_parse vp v = Some (e_kind e) /\ ~ in_lang vp v /\ e_arg e = a_id a.
+Definition J_ext_value (e : error) : Prop :=
+  exists v, In v T /\ is_set s_allow_external c = true /\
+            vp_parse (opt_default VPOsString (c_ext_vp c)) v = Some (e_kind e) /\
+            ~ in_lang (opt_default VPOsString (c_ext_vp c)) v.
+Definition J_unknown_tok (e : error) : Prop := exists tok, In tok T /\ unknown_cause c tok e.
+Definition J_help_walk (e : error) : Prop := exists names, suffix_of names T /\ e = help_walk c names.
+
+Definition kind_justified (e : error) : Prop :=
+  match e_kind e with
+  | EMissingRequiredArgument =>
+      (* a matcher faithful to the line in which the named id is not explicitly present although a rule asks for it *)
+      exists m req, faithful c T m /\ gather_requires c m (required_graph c) = Some req /\ missing_cause c m req (e_arg e)
+  | EArgumentConflict =>
+      (* two accounted-for ids one of which declares a conflict with the other *)
+      (accounted (e_arg e) /\ is_some (find_arg c (e_arg e)) = true /\
+       exists other, accounted other /\ other <> e_arg e /\
+                     (Relations.declares c (e_arg e) other \/ Relations.declares c other (e_arg e)))
+      (* an exclusive argument next to another explicit argument *)
+      \/ (accounted (e_arg e) /\
+          exists a m, find_arg c (e_arg e) = Some a /\ a_exclusive a = true /\ faithful c T m /\
+                      (2 <= length (filter (fun p => is_some (find_arg c (fst p))) (explicit_entries m)))%nat)
+      (* a repeated Set / SetTrue / SetFalse argument that does not override itself *)
+      \/ (exists a s st, In a (c_args c) /\ srcOKarg c T a s /\ e_arg e = a_id a /\ K c T st /\
+                         mt_contains (mt st) (a_id a) = true /\
+                         (is_set s_args_override_self c || mem_id (a_id a) (a_overrides a)) = false /\
+                         In (a_get_action a) [ASet; ASetTrue; ASetFalse])
+      (* args_conflicts_with_subcommands: a word where no positional is left / a subcommand after an argument *)
+      \/ J_unknown_tok e
+      \/ is_set s_args_negate_subs c = true
+  | ETooManyValues =>
+      J_count_occ e \/ (exists tok, In tok T /\ unneeded_cause c tok (e_arg e))
+  | ETooFewValues | EWrongNumberOfValues => J_count_occ e
+  | ENoEquals => exists tok, In tok T /\ noeq_cause c tok (e_arg e)
+  | EInvalidValue => J_value_occ e \/ J_count_occ e \/ J_ext_value e
+  | EValueValidation => J_value_occ e \/ J_ext_value e
+  | EInvalidUtf8 =>
+      J_value_occ e \/ J_ext_value e
+      \/ (exists tok, In tok T /\ utf8_valid tok = false /\ is_set s_allow_external c = true)
+  | EUnknownArgument => J_unknown_tok e
+  | EInvalidSubcommand => J_unknown_tok e \/ J_help_walk e
+  | EDisplayHelp =>
+      (exists a s, In a (c_args c) /\ srcOKarg c T a s /\ In (a_get_action a) [AHelp; AHelpShort; AHelpLong])
+      \/ J_help_walk e
+  | EDisplayVersion => exists a s, In a (c_args c) /\ srcOKarg c T a s /\ a_get_action a = AVersion
+  | EDisplayHelpOnMissing =>
+      exists m, faithful c T m /\ explicit_entries m = [] /\ mt_sub m = None /\ is_set s_arg_required_else_help c = true
+  | EMissingSubcommand => exists m, faithful c T m /\ mt_sub m = None /\ is_set s_sub_required c = true
+  | EIo | EFormat => False
+  end.
+
+Lemma validate_early c' m k x : validate c' m = VErr k x ->
+  (k = EDisplayHelpOnMissing -> explicit_entries m = [] /\ mt_sub m = None /\ is_set s_arg_required_else_help c' = true)
+  /\ (k = EMissingSubcommand -> mt_sub m = None /\ is_set s_sub_required c' = true).
+Proof.
+  unfold validate. destruct (conflicts_with_args c' m) as [pot|]; [|discriminate].
+  destruct (negb (is_some (mt_sub m)) && is_set s_arg_required_else_help c' && is_nil (explicit_entries m)) eqn:E1.
+  { intros H; injection H as <- _. split; [intros _|discriminate].
+    apply andb_prop in E1. destruct E1 as [E1 E3]. apply andb_prop in E1. destruct E1 as [E1 E2].
+    destruct (explicit_entries m); [|discriminate E3]. destruct (mt_sub m); [discriminate E1|]. auto. }
+  destruct (negb (is_some (mt_sub m)) && is_set s_sub_required c') eqn:E2.
+  { intros H; injection H as <- _. split; [discriminate|intros _].
+    apply andb_prop in E2. destruct E2 as [E2 E3]. destruct (mt_sub m); [discriminate E2|]. auto. }
+  destruct (validate_conflicts c' m pot) as [|k' a'|s] eqn:Ev.
+  - destruct (is_set s_subs_negate_reqs c' && is_some (mt_sub m)); [discriminate|].
+    destruct (missing_required c' m pot) as [[|y t]|]; try discriminate. intros H; injection H as <- _. split; discriminate.
+  - intros H; injection H as <- _. apply validate_conflicts_kind in Ev. subst k'. split; discriminate.
+  - discriminate.
+Qed.
+
+Ltac kind_no H := exfalso; cbn in H; repeat (destruct H as [H|H]; [discriminate H|]); exact H.
+
+Theorem level_breaks_justified e : level_breaks c T e -> kind_justified e.
+Proof.
+  intros H. unfold kind_justified. destruct H as [Hl|name Hn He|names Hs He|v Hv Hext Hk Ha|m k x Happ Hf Hv He].
+  - destruct Hl as [Hr|tok Htok Hc Hk|tok i Htok Hc He|tok i Htok Hc He|tok Htok Hu Hext He].
+    + destruct Hr as [a [s [raw [Hin [Hs [HV Hc]]]]]].
+      destruct Hc as [r Hcmd Hnum Harg Hk Hcb|st Hk Harg HK Hcon Hso Hact|vp v Hvp Hvt Hpv Hnl Harg|Hk Hact|Hk Hact].
+      * assert (Hocc : J_count_occ e).
+        { exists a, raw, r. subst s. repeat (split; [assumption|]); assumption. }
+        cbn in Hk. destruct Hk as [Hk|[Hk|[Hk|[Hk|[]]]]]; rewrite <- Hk; auto.
+      * rewrite Hk. right; right; left. exists a, s, st. repeat (split; [assumption|]); assumption.
+      * assert (Hocc : J_value_occ e).
+        { exists a, s, vp, v. repeat (split; [assumption|]); assumption. }
+        pose proof Hpv as Hpv'. apply vp_parse_reject_sound in Hpv'. destruct Hpv' as [_ [Hk _]].
+        cbn in Hk. destruct Hk as [Hk|[Hk|[Hk|[]]]]; rewrite <- Hk; auto.
+      * rewrite Hk. left. exists a, s. repeat (split; [assumption|]); assumption.
+      * rewrite Hk. exists a, s. repeat (split; [assumption|]); assumption.
+    + assert (Hj : J_unknown_tok e) by (exists tok; split; assumption).
+      cbn in Hk. destruct Hk as [Hk|[Hk|[Hk|[]]]]; rewrite <- Hk; auto.
+    + subst e. cbn. exists tok. split; assumption.
+    + subst e. cbn. right. exists tok. split; assumption.
+    + subst e. cbn. right; right. exists tok. repeat (split; [assumption|]); assumption.
+  - subst e. cbn. right; right; right; right. exact Hn.
+  - assert (Hj : J_help_walk e) by (exists names; split; assumption).
+    destruct (help_walk_sound names c) as [Hk|[Hk _]]; rewrite <- He in Hk; rewrite Hk; auto.
+  - assert (Hj : J_ext_value e).
+    { exists v. split; [exact Hv|]. split; [exact Hext|]. split; [exact Hk|]. apply vp_parse_reject_sound in Hk. apply Hk. }
+    pose proof Hk as Hk'. apply vp_parse_reject_sound in Hk'. destruct Hk' as [_ [Hkk _]].
+    cbn in Hkk. destruct Hkk as [Hkk|[Hkk|[Hkk|[]]]]; rewrite <- Hkk; auto.
+  - subst e. cbn [e_kind e_arg mkerr].
+    pose proof (validate_kinds _ _ _ _ Hv) as Hk. pose proof (validate_early _ _ _ _ Hv) as [Hh Hms].
+    cbn in Hk. destruct Hk as [Hk|[Hk|[Hk|[Hk|[]]]]]; subst k.
+    + destruct (Hh eq_refl) as [H1 [H2 H3]]. exists m. repeat (split; [assumption|]); assumption.
+    + destruct (Hms eq_refl) as [H1 H2]. exists m. repeat (split; [assumption|]); assumption.
+    + destruct (validate_conflict_sound _ _ _ Hv) as [Hex [Harg Hc]].
+      pose proof (faithful_accounted m x Hf Hex) as Hax.
+      destruct Hc as [[a [Ha [Hexc Hlen]]]|[other [Hoex [Hne Hd]]]].
+      * right; left. split; [exact Hax|]. exists a, m. repeat (split; [assumption|]); assumption.
+      * left. split; [exact Hax|]. split; [exact Harg|]. exists other.
+        split; [eapply faithful_accounted; eassumption|]. split; [exact Hne|].
+        pose proof (Relations.assert_app_rel_wf c Happ) as W.
+        destruct Hd as [[l [Hg Hin]]|[l [Hg Hin]]]; [left|right];
+          apply (Relations.gather_direct_spec c W _ _ Hg); exact Hin.
+    + destruct (validate_missing_sound _ _ _ Hv) as [req [Hr Hm]]. exists m, req. repeat (split; [assumption|]); assumption.
+Qed.
+End Justified.
+
+(** the single theorem: a rejection of the whole parse is justified, by kind, at a level of the subcommand chain *)
+Definition Breaks (c0 : cmd) (argv : list bytes) (e : error) : Prop :=
+  exists b T c' T', suffix_of T argv /\ reach (build_self (c0 <| c_bin_name := b |>)) T c' T' /\ kind_justified c' T' e.
+
+Theorem kind_sound c0 argv e : plain c0 = true ->
+  (forall b, valid (c0 <| c_bin_name := b |>) = true) -> valid c0 = true ->
+  parse_top c0 argv = OErr e -> Breaks c0 argv e.
+Proof.
+  intros Hp Hvb Hv H. destruct (parse_top_breaks c0 argv e Hp Hvb Hv H) as [b [T [HT Hb]]].
+  destruct (breaks_reach _ _ _ Hb) as [c' [T' [Hr Hl]]].
+  exists b, T, c', T'. split; [exact HT|]. split; [exact Hr|]. apply level_breaks_justified. exact Hl.
 Qed.
